@@ -313,6 +313,19 @@ def run(world, rep, tier, only=None):
     # ------------------------------------------------------------------ C01.h removing the orphan file releases its inode
     orphan_removal_rules(world, rep, "C01.h")
 
+    # ------------------------------------------------------------------ C01.j one hash version for every name of a rebuilt directory
+    # pass 3A files the entries of a rebuilt htree by hash; pass 2 of the next run verifies them with the version
+    # adjusted for the superblock's unsigned-hash flag.  Every hashing site of e2fsck must apply that adjustment.
+    from vlib import dirhash
+    hs = dirhash.sites(prog, ("e2fsck/",))
+    rep.floor("C01.j directory-hash call sites in e2fsck", len(hs), 3)
+    for (f, c, ok, how) in hs:
+        if ok is None:
+            rep.examined()
+            continue
+        rep.ob("C01.j", site(f, "hash version adjusted for UNSIGNED_HASH#%d" % _occ_call(f, c)), ok,
+               "ext2fs_dirhash2(%s, …): the version went through `+= 3 under s_flags & EXT2_FLAGS_UNSIGNED_HASH`" % how)
+
     # ------------------------------------------------------------------ C01.g bitmap checksum verification skipped only for a dirty own bitmap
     p5 = {f.name: f for f in prog.fns_in_file("e2fsck/pass5.c")}
     pass5 = p5.get("e2fsck_pass5")
@@ -475,3 +488,9 @@ def _loop_head(fn, node):
             if best is None or len(body) < best:
                 best, head = len(body), hb
     return head
+
+
+def _occ_call(fn, node):
+    nm = T.call_names(node.ev["x"])[0] if T.call_names(node.ev["x"]) else "?"
+    same = sorted([n for n in fn.call_nodes() if nm in T.call_names(n.ev["x"])], key=lambda n: (n.line, n.bid, n.idx))
+    return same.index(node)
